@@ -938,6 +938,8 @@ def run(ctx):
 
 _STD = "self.e_tauint[e_name] = self.e_n_tauint[e_name][n] * (1 + (2 * n + 1) / e_N) / (1 + 1 / e_N)  # Bias correction"
 SELFTEST = [
+    ('wmax-shortest-replica', 'pyerrors/obs.py', '            w_max = max(r_length) // 2', '            w_max = min(r_length) // 2', 'C02-D3'),
+    ('tail-max-instead-of-abs', 'pyerrors/obs.py', '+ texp * np.abs(self.e_rho[e_name][n + 1])', '+ texp * max(self.e_rho[e_name][n + 1], 0.0)', 'C02-D1'),
     ('list-replica-length-off-by-one', 'pyerrors/obs.py', "r_length.append((self.idl[r_name][-1] - self.idl[r_name][0] + gapsize) // gapsize)", "r_length.append((self.idl[r_name][-1] - self.idl[r_name][0]) // gapsize)", 'C02-D3'),
     ('expand-shortcut-any-range', 'pyerrors/obs.py', "    if isinstance(idx, range):\n        if (idx.step == gapsize):\n            return deltas", "    if isinstance(idx, range):\n        return deltas", 'C02-D3'),
     ('benign-pair-count-half', 'pyerrors/obs.py', "gamma_div[gamma_div < 1] = 1.0", "gamma_div[gamma_div < 0.5] = 1.0", 'BENIGN'),
